@@ -87,8 +87,27 @@ def is_plain(op):
     return op[0] in ("expand", "bfs", "dfs", "target", "reclaim", "pickle") or (op[0] == "min" and not op[3])
 
 # ---------------------------------------------------------------- generic case worker
+class CaseTimeout(Exception):
+    pass
+
+def _alarm(signum, frame):
+    raise CaseTimeout()
+
+CASE_TIMEOUT = int(os.environ.get("VERIF_CASE_TIMEOUT", "40"))
+
 def _case_worker(case):
     """runs the history on code and model, plus a fresh full-BFS reference on the model"""
+    import signal
+    signal.signal(signal.SIGALRM, _alarm)
+    signal.alarm(CASE_TIMEOUT)
+    try:
+        return _case_worker_inner(case)
+    except CaseTimeout:
+        return {"case": case, "error": None, "timeout": True, "steps": []}
+    finally:
+        signal.alarm(0)
+
+def _case_worker_inner(case):
     try:
         rules, config, history = case["rules"], case.get("config") or {}, case["history"]
         sd = make_sd(rules, config)
@@ -119,6 +138,8 @@ def _case_worker(case):
             steps.append({"real_result": r, "model_result": mr, "real": d, "model": md, "meta": meta})
         return {"case": case, "steps": steps, "ref_full": ref_out[1].split(" ", 1)[1], "mintraps": parse_spaces(ref_out[2]),
                 "root": ref_out[3], "n": n, "error": None}
+    except CaseTimeout:
+        raise
     except Exception as e:  # harness error: reported, never silently dropped
         return {"case": case, "error": traceback.format_exc()}
 
@@ -184,7 +205,11 @@ def summarize(ws, nontrivial):
 def harness_errors(ws, pid):
     v = []
     for w in ws:
-        if w.get("error"):
+        if w.get("timeout"):
+            v.append({"property": pid, "signature": "C13:operation-did-not-finish", "case": w["case"],
+                      "what": f"history did not finish within {CASE_TIMEOUT}s (watchdog)", "failing_input": True})
+            w["error"] = "timeout"
+        elif w.get("error"):
             v.append({"property": pid, "signature": "harness-error:" + w["error"].strip().splitlines()[-1][:80],
                       "case": w["case"], "error": w["error"], "failing_input": False})
     return v
